@@ -621,11 +621,11 @@ def leaf_table(leaf):
         return leaf_table(parts[-1]) if parts else None
     while t and t[0] in (("p", "&"), ("p", "*")):
         t = t[1:]
-    if len(t) == 1 and t[0][0] == "id" and "::" not in t[0][1]:
-        return t[0][1]
+    if len(t) == 1 and t[0][0] == "id":
+        return t[0][1].split("::")[-1]        # `tables::MAP_X`: items are located by name, whatever module they are in
     if (len(t) == 5 and t[0][0] == "id" and t[1] == ("p", ".") and t[2] == ("id", "deref") and t[3] == ("p", "(")
             and t[4] == ("p", ")")):
-        return t[0][1]
+        return t[0][1].split("::")[-1]
     return None
 
 
